@@ -23,7 +23,12 @@ Ltac perm_nat :=
              let H' := fresh "Hc" in
              pose proof (proj1 (Permutation_count_occ Nat.eq_dec a b) H x) as H'; clear H
          end;
-  rewrite ?count_occ_app in *; cbn [count_occ] in *; lia.
+  rewrite ?count_occ_app in *; cbn [count_occ] in *;
+  repeat match goal with
+         | H : context [Nat.eq_dec ?a ?b] |- _ => destruct (Nat.eq_dec a b)
+         | |- context [Nat.eq_dec ?a ?b] => destruct (Nat.eq_dec a b)
+         end;
+  lia.
 
 Lemma flat_map_app {A B} (f : A -> list B) a b : flat_map f (a ++ b) = flat_map f a ++ flat_map f b.
 Proof. induction a as [|x a IH]; cbn; [reflexivity|rewrite IH, app_assoc; reflexivity]. Qed.
@@ -136,7 +141,7 @@ Section Inv.
       nth_error (queue s) i = Some (q, k) -> dep_free s (dep_of k) = true ->
       trans s (set_thr (take_dep (set_queue s (remove_nth i (queue s))) (dep_of k)) t p)
   | tr_none s t p0 p :          (* a fetch that returns NO_TASK *)
-      get_thr s t = Some p0 -> pc_tasks p0 = [] -> pc_tasks p = [] -> active_pc p = false ->
+      get_thr s t = Some p0 -> pc_tasks p0 = [] -> pc_tasks p = [] -> active_pc p = false -> p <> PExit ->
       (forall e, In e (queue s) -> fst e = 0 -> fetchable s e = false) ->
       trans s (set_thr s t p)
   | tr_flag s t e :
@@ -183,18 +188,18 @@ Section Inv.
     - (* fetch none *)
       destruct (get_thr s t) as [[| | | | | | | | |]|] eqn:G; try discriminate.
       + destruct (negb (existsb _ (queue s))) eqn:E; [|discriminate]. intros H; injection H as <-.
-        eapply tr_none; eauto.
+        eapply tr_none; eauto; [discriminate|].
         intros e He H0. apply negb_true_iff in E.
         destruct (fetchable s e) eqn:F; [|reflexivity]. exfalso.
         assert (X : existsb (fun e => Nat.eqb (fst e) 0 && fetchable s e) (queue s) = true).
         { apply existsb_exists. exists e. split; [exact He|]. rewrite H0, F. reflexivity. }
         congruence.
       + destruct (none_allowed s t) eqn:E; [|discriminate]. intros H; injection H as <-.
-        eapply tr_none; eauto. apply none_allowed_shared with t. exact E.
+        eapply tr_none; eauto; [discriminate|]. apply none_allowed_shared with t. exact E.
       + destruct (none_allowed s t) eqn:E; [|discriminate]. intros H; injection H as <-.
-        eapply tr_none; eauto. apply none_allowed_shared with t. exact E.
+        eapply tr_none; eauto; [discriminate|]. apply none_allowed_shared with t. exact E.
       + destruct (none_allowed s t) eqn:E; [|discriminate]. intros H; injection H as <-.
-        eapply tr_none; eauto. apply none_allowed_shared with t. exact E.
+        eapply tr_none; eauto; [discriminate|]. apply none_allowed_shared with t. exact E.
     - (* run *)
       destruct (get_thr s t) as [[| [k|] | | | [k|] | | | | |]|] eqn:G; try discriminate.
       destruct (run_body s k r) as [[s1 ks]|] eqn:R; [|discriminate].
@@ -408,7 +413,8 @@ Section Inv.
     /\ done s1 + length (term s) = done s + length (term s1)
     /\ sum (map task_src ks) = 0
     /\ sum (map task_csrc ks) = 0 /\ cont_rem s1 + task_csrc k = cont_rem s
-    /\ nonempty_entries (active s1) /\ nonempty_entries (local s1) /\ Forall task_ok ks.
+    /\ nonempty_entries (active s1) /\ nonempty_entries (local s1) /\ Forall task_ok ks
+    /\ length (term s) <= length (term s1).
   Proof.
     intros H Hok Hna Hnl. destruct k as [sg cnt|blk cnt|blk|sg ps|sg ps]; cbn [C01_Defs.run_body] in H.
     - (* discrete source *)
@@ -434,10 +440,10 @@ Section Inv.
         unfold pk_act, pk_loc; cbn [active local set_counts];
         rewrite ?flat_map_app, ?map_app, ?sum_app, ?Hf0, ?Hf1, ?Hf2, ?app_nil_r;
         [apply Nat.eqb_eq in Z|apply Nat.eqb_neq in Z];
-        splits; easy_goals; try congruence.
-      + rewrite B2, B8. cbn [app]. perm_nat.
-      + apply Forall_app; split; assumption.
-      + rewrite B2, B8. cbn [app]. perm_nat.
+        splits; easy_goals; try congruence;
+        try (rewrite B8; lia);
+        try (apply Forall_app; split; assumption);
+        try (rewrite B2, B8; cbn [app]; perm_nat).
     - (* flush *)
       destruct (flush_block s blk) as [s2 k2] eqn:E. injection H as <- <-.
       destruct (flush_block_spec _ _ _ _ Hnl E) as (B1 & B2 & B3 & B4 & B5 & B6 & B7 & B8 & B9 & B10 & B11 & P2 & N2 & T2 & S2 & C2 & F2).
@@ -458,9 +464,8 @@ Section Inv.
       unfold add_done. cbn [queue slocks blocks flag thr active local term done fresh cont_rem task_pk task_src task_csrc].
       unfold pk_act, pk_loc in *. cbn [active local].
       rewrite B1, B2, B3, B4, B5, B7, B8, B9, B10, B11.
-      splits; easy_goals.
-      + cbn [seq]. rewrite app_nil_r. perm_nat.
-      + rewrite app_length. lia.
+      splits; easy_goals; try (rewrite app_length; lia).
+      cbn [seq]. rewrite app_nil_r. perm_nat.
     - (* re-emission *)
       destruct (r_outs r) as [|[[|d] kept] [|o outs]]; try discriminate.
       destruct (same_elements ps (r_term r ++ kept)) eqn:C1; [|discriminate]. injection H as <- <-.
@@ -469,11 +474,8 @@ Section Inv.
       unfold pk_act, pk_loc. cbn [active local].
       assert (Hk : flat_map task_pk (match kept with [] => [] | _ :: _ => [TTrav sg kept] end) = kept)
         by (destruct kept; cbn; [reflexivity|rewrite app_nil_r; reflexivity]).
-      splits; easy_goals.
+      splits; easy_goals; try (rewrite app_length; lia); try (destruct kept; reflexivity).
       + rewrite Hk. cbn [seq]. rewrite app_nil_r. perm_nat.
-      + rewrite app_length. lia.
-      + destruct kept; reflexivity.
-      + destruct kept; reflexivity.
       + destruct kept; [constructor|constructor; [discriminate|constructor]].
   Qed.
 End Inv.
@@ -510,6 +512,7 @@ Section Main.
   Record Inv (s : st) : Prop := {
     i_d : InvD s (held s);
     i_exit : Forall (fun p => p = PExit -> flag s = false) (thr s);
+    i_len : length (thr s) = NTHR;
     i_live : existsb active_pc (thr s) = false -> held s = [] /\ Forall (fun e => fst e <> 0) (queue s)
   }.
 
@@ -518,6 +521,11 @@ Section Main.
 
   Lemma thr_set s t p : thr (set_thr s t p) = firstn t (thr s) ++ p :: skipn (S t) (thr s).
   Proof. reflexivity. Qed.
+
+  Lemma len_set_thr s t p0 p : get_thr s t = Some p0 -> length (thr (set_thr s t p)) = length (thr s).
+  Proof.
+    intros G. apply get_thr_lt in G. rewrite thr_set, app_length. cbn [length]. rewrite firstn_length, skipn_length. lia.
+  Qed.
 
   Lemma held_of s t p0 : get_thr s t = Some p0 -> Permutation (held s) (pc_tasks p0 ++ flat_map pc_tasks (others s t)).
   Proof. apply held_split. Qed.
@@ -635,12 +643,13 @@ Section Main.
   Lemma inv_move s t p0 p : Inv s -> get_thr s t = Some p0 -> pc_tasks p = pc_tasks p0 ->
     (p = PExit -> flag s = false) -> (active_pc p = false -> active_pc p0 = false) -> Inv (set_thr s t p).
   Proof.
-    intros [D E L] G Hp Hx Ha.
+    intros [D E N L] G Hp Hx Ha.
     assert (PH : Permutation (held (set_thr s t p)) (held s)).
     { rewrite held_set_thr, (held_of s t p0 G), Hp. reflexivity. }
     constructor.
     - apply (InvD_ext s); try reflexivity. apply (InvD_perm s (held s)); [symmetry; exact PH|]. exact D.
     - apply Forall_set_thr; [exact E|exact Hx].
+    - rewrite (len_set_thr s t p0 p G). exact N.
     - intros Hn. rewrite (existsb_set_thr s t p0 p G) in Hn. apply orb_false_elim in Hn as [Hn1 Hn2].
       assert (existsb active_pc (thr s) = false) as Hs by (rewrite (existsb_thr s t p0 G), (Ha Hn1), Hn2; reflexivity).
       destruct (L Hs) as [L1 L2]. split; [|exact L2].
@@ -657,7 +666,7 @@ Section Main.
     nth_error (queue s) i = Some (q, k) -> dep_free s (dep_of k) = true ->
     Inv (set_thr (take_dep (set_queue s (remove_nth i (queue s))) (dep_of k)) t p).
   Proof.
-    intros [D E L] G Hp0 Hp Hn Hf.
+    intros [D E N L] G Hp0 Hp Hn Hf.
     set (s1 := take_dep (set_queue s (remove_nth i (queue s))) (dep_of k)).
     assert (Hthr : thr s1 = thr s) by (unfold s1; destruct (dep_of k); reflexivity).
     assert (Hflag : flag s1 = flag s) by (unfold s1; destruct (dep_of k); reflexivity).
@@ -691,8 +700,344 @@ Section Main.
     - apply Forall_set_thr.
       + rewrite Hthr. eapply Forall_impl; [|exact E]. intros a Ha Hx. cbn [flag set_thr]. rewrite Hflag. auto.
       + intros ->. cbn in Hp. discriminate.
+    - rewrite (len_set_thr s1 t p0 p G1), Hthr. exact N.
     - intros Hn'. exfalso. rewrite (existsb_set_thr s1 t p0 p G1) in Hn'.
       apply orb_false_elim in Hn' as [Hn1 _].
       destruct p as [| [k'|] | | | [k'|] | | | | |]; cbn in Hp, Hn1; discriminate.
   Qed.
+
+  (* ---- a fetch that returns NO_TASK ---- *)
+  Lemma deps_nil_free s k : slocks s = [] -> blocks s = [] -> dep_free s (dep_of k) = true.
+  Proof. intros H1 H2. unfold dep_free. destruct (dep_of k); [reflexivity|rewrite H1|rewrite H2]; reflexivity. Qed.
+
+  Lemma inv_none s t p0 p : Inv s -> get_thr s t = Some p0 -> pc_tasks p0 = [] -> pc_tasks p = [] -> active_pc p = false ->
+    (p = PExit -> False) ->
+    (forall e, In e (queue s) -> fst e = 0 -> fetchable s e = false) -> Inv (set_thr s t p).
+  Proof.
+    intros [D E N L] G Hp0 Hp Hina Hne Hsh.
+    assert (PH : Permutation (held (set_thr s t p)) (held s)).
+    { rewrite held_set_thr, (held_of s t p0 G), Hp, Hp0. reflexivity. }
+    constructor.
+    - apply (InvD_ext s); try reflexivity. apply (InvD_perm s (held s)); [symmetry; exact PH|]. exact D.
+    - apply Forall_set_thr; [exact E|]. intros X. exfalso. exact (Hne X).
+    - rewrite (len_set_thr s t p0 p G). exact N.
+    - intros Hn. rewrite (existsb_set_thr s t p0 p G) in Hn. apply orb_false_elim in Hn as [_ Hn2].
+      (* nobody else is active, hence nobody holds a task or a lock, hence everything queued is fetchable *)
+      assert (Hh : held s = []).
+      { apply Permutation_nil. rewrite (held_of s t p0 G), Hp0. cbn [app]. rewrite (inactive_no_tasks _ Hn2). reflexivity. }
+      split.
+      + apply Permutation_nil. rewrite <- Hh. symmetry. exact PH.
+      + destruct D as [_ _ _ _ _ _ _ _ A9 A10 _ _]. rewrite Hh in A9, A10. cbn in A9, A10.
+        apply Permutation_sym, Permutation_nil in A9. apply Permutation_sym, Permutation_nil in A10.
+        apply Forall_forall. intros e He H0. cbn [queue set_thr] in He.
+        specialize (Hsh e He H0). unfold fetchable in Hsh. rewrite (deps_nil_free s (snd e) A9 A10) in Hsh. discriminate.
+  Qed.
+
+  (* ---- clearing the run flag ---- *)
+  Lemma inv_flag s t e : Inv s -> get_thr s t = Some (PCheck2 e) -> done s = NREQ ->
+    Inv (set_thr (mkSt (queue s) (active s) (local s) (slocks s) (blocks s) (cont_rem s) (flushed s) (done s) (term s) (fresh s) false (thr s)) t (PHead None)).
+  Proof.
+    intros [D E N L] G Hd.
+    set (s1 := mkSt (queue s) (active s) (local s) (slocks s) (blocks s) (cont_rem s) (flushed s) (done s) (term s) (fresh s) false (thr s)).
+    assert (G1 : get_thr s1 t = Some (PCheck2 e)) by exact G.
+    assert (PH : Permutation (held (set_thr s1 t (PHead None))) (held s)).
+    { rewrite held_set_thr. unfold others. cbn [thr s1]. rewrite (held_of s t _ G). reflexivity. }
+    constructor.
+    - apply (InvD_perm _ (held s)); [symmetry; exact PH|].
+      destruct D as [A1 A2 A3 A4 A5 A6 A7 A8 A9 A10 A11 A12].
+      constructor; unfold pk_act, pk_loc in *; cbn [queue active local slocks blocks cont_rem flushed done term fresh flag thr set_thr s1]; try assumption.
+      intros _. exact Hd.
+    - apply Forall_set_thr; [|discriminate]. cbn [thr s1]. apply Forall_forall. intros x _ _. reflexivity.
+    - rewrite (len_set_thr s1 t _ _ G1). exact N.
+    - intros Hn. rewrite (existsb_set_thr s1 t _ _ G1) in Hn. apply orb_false_elim in Hn as [_ Hn2].
+      assert (Hs : existsb active_pc (thr s) = false) by (rewrite (existsb_thr s t _ G); exact Hn2).
+      destruct (L Hs) as [L1 L2]. split; [|exact L2].
+      apply Permutation_nil. rewrite <- L1. symmetry. exact PH.
+  Qed.
+
+  (* ---- premature launch of a partially filled buffer ---- *)
+  Lemma launch_facts sg d ps k : launch_task ngb sg d ps = Some k -> ps <> [] ->
+    task_pk k = ps /\ task_src k = 0 /\ task_csrc k = 0 /\ task_ok k /\
+    (forall q, shared_only k (match k with TReemit _ _ => 0 | _ => S q end)).
+  Proof.
+    unfold launch_task. intros H Hne. destruct d as [|d].
+    - injection H as <-. cbn. repeat split; auto.
+    - destruct (ngb sg (S d)) as [n|]; [|discriminate]. injection H as <-. cbn. repeat split; auto.
+  Qed.
+
+  Lemma inv_premature s t sg d q ps k : Inv s -> get_thr s t = Some PIdle -> aget (active s) (sg, d) = ps -> ps <> [] ->
+    launch_task ngb sg d ps = Some k ->
+    Inv (set_thr (enqueue (set_active s (adel (active s) (sg, d))) (match k with TReemit _ _ => 0 | _ => S q end) k) t PIdleFetch).
+  Proof.
+    intros [D E N L] G Ha Hne Hl.
+    destruct (launch_facts _ _ _ _ Hl Hne) as (K1 & K2 & K3 & K4 & K5).
+    set (s1 := enqueue (set_active s (adel (active s) (sg, d))) (match k with TReemit _ _ => 0 | _ => S q end) k).
+    assert (G1 : get_thr s1 t = Some PIdle) by exact G.
+    assert (PH : Permutation (held (set_thr s1 t PIdleFetch)) (held s)).
+    { rewrite held_set_thr. unfold others. cbn [thr s1 enqueue set_queue set_active]. rewrite (held_of s t _ G). reflexivity. }
+    constructor.
+    - apply (InvD_perm _ (held s)); [symmetry; exact PH|].
+      destruct D as [A1 A2 A3 A4 A5 A6 A7 A8 A9 A10 A11 A12].
+      pose proof (aget_adel (active s) (sg, d)) as PA. rewrite Ha in PA.
+      constructor; unfold pk_act, pk_loc in *;
+        cbn [queue active local slocks blocks cont_rem flushed done term fresh flag thr set_thr s1 enqueue set_queue set_active]; try assumption.
+      + rewrite map_app. cbn [map snd]. rewrite <- ?app_assoc, ?flat_map_app. cbn [flat_map snd]. rewrite K1, app_nil_r.
+        rewrite <- A1. rewrite flat_map_app. perm_nat.
+      + rewrite map_app. cbn [map snd]. rewrite <- ?app_assoc, ?map_app, ?sum_app. cbn [map sum snd]. rewrite K2.
+        rewrite <- A3. rewrite map_app, sum_app. lia.
+      + rewrite map_app. cbn [map snd]. rewrite <- ?app_assoc, ?map_app, ?sum_app. cbn [map sum snd]. rewrite K3.
+        rewrite A4. rewrite map_app, sum_app. lia.
+      + apply adel_forall. exact A5.
+      + rewrite map_app. cbn [map snd]. rewrite <- ?app_assoc. apply Forall_app in A7 as [F1 F2].
+        apply Forall_app. split; [exact F1|]. constructor; [exact K4|exact F2].
+      + apply Forall_app. split; [exact A12|]. constructor; [|constructor]. cbn [fst snd]. apply K5.
+    - apply Forall_set_thr; [exact E|discriminate].
+    - rewrite (len_set_thr s1 t _ _ G1). exact N.
+    - intros Hn. exfalso. rewrite (existsb_set_thr s1 t _ _ G1) in Hn. cbn in Hn. discriminate.
+  Qed.
+
+  (* ---- running a task ---- *)
+  Lemma drop_dep_fields s d :
+    queue (drop_dep s d) = queue s /\ active (drop_dep s d) = active s /\ local (drop_dep s d) = local s
+    /\ cont_rem (drop_dep s d) = cont_rem s /\ done (drop_dep s d) = done s /\ term (drop_dep s d) = term s
+    /\ fresh (drop_dep s d) = fresh s /\ flag (drop_dep s d) = flag s /\ thr (drop_dep s d) = thr s.
+  Proof. destruct d; repeat split; reflexivity. Qed.
+
+  Lemma inv_run s t k r s1 ks : Inv s -> get_thr s t = Some (PInner (Some k)) ->
+    run_body CAP NTHR reemit ngb s k r = Some (s1, ks) ->
+    Inv (set_thr (enqueue_all (drop_dep s1 (dep_of k)) (r_qsel r) 0 ks) t PFetchInner).
+  Proof.
+    intros [D E N L] G Hb.
+    destruct D as [A1 A2 A3 A4 A5 A6 A7 A8 A9 A10 [N1 N2] A12].
+    set (rest := flat_map pc_tasks (others s t)).
+    assert (PHs : Permutation (held s) (k :: rest)) by (rewrite (held_of s t _ G); reflexivity).
+    assert (Hokk : task_ok k).
+    { rewrite Forall_forall in A7. apply A7. apply in_or_app. right. apply (Permutation_in k (Permutation_sym PHs)). left. reflexivity. }
+    destruct (body_spec CAP NTHR reemit ngb CAP_pos s k r s1 ks Hb Hokk A5 A6)
+      as (B1 & B2 & B3 & B4 & B5 & BP & BF & BD & BS & BC1 & BC2 & BA & BL & BO & BT).
+    set (s2 := drop_dep s1 (dep_of k)).
+    destruct (drop_dep_fields s1 (dep_of k)) as (F1 & F2 & F3 & F4 & F5 & F6 & F7 & F8 & F9). fold s2 in F1, F2, F3, F4, F5, F6, F7, F8, F9.
+    destruct (enqueue_all_queue ks s2 (r_qsel r) 0) as (Q1 & Q2 & Q3 & Q4 & Q5 & Q6 & Q7 & Q8 & Q9 & Q10 & Q11 & Q12).
+    set (s3 := enqueue_all s2 (r_qsel r) 0 ks) in *.
+    assert (Hthr3 : thr s3 = thr s) by congruence.
+    assert (G3 : get_thr s3 t = Some (PInner (Some k))) by (unfold get_thr; rewrite Hthr3; exact G).
+    assert (PH : Permutation (held (set_thr s3 t PFetchInner)) rest).
+    { rewrite held_set_thr. unfold others, rest, others. rewrite Hthr3. reflexivity. }
+    (* measures of the old state, with the held tasks split *)
+    assert (PT : Permutation (map snd (queue s) ++ held s) (k :: map snd (queue s) ++ rest)).
+    { rewrite PHs. symmetry. apply Permutation_middle. }
+    assert (A1' := A1). rewrite (Permutation_flat_map task_pk PT) in A1'. cbn [flat_map] in A1'.
+    assert (A3' : fresh s + (task_src k + sum (map task_src (map snd (queue s) ++ rest))) = NREQ).
+    { rewrite <- A3. f_equal. rewrite (sum_perm _ _ (Permutation_map task_src PT)). reflexivity. }
+    assert (A4' : cont_rem s = task_csrc k + sum (map task_csrc (map snd (queue s) ++ rest))).
+    { rewrite A4. rewrite (sum_perm _ _ (Permutation_map task_csrc PT)). reflexivity. }
+    assert (A7' : Forall task_ok (map snd (queue s) ++ rest)).
+    { eapply Permutation_Forall in A7; [|exact PT]. inversion A7; assumption. }
+    assert (Hq3 : map snd (queue s3) = map snd (queue s) ++ ks) by (rewrite Q1, F1, B1; reflexivity).
+    assert (Dnew : InvD s3 rest).
+    { constructor; unfold pk_act, pk_loc in *.
+      - rewrite Hq3, Q2, Q3, Q8, Q9, F2, F3, F6, F7, BF.
+        rewrite seq_app_perm. rewrite <- ?app_assoc, ?flat_map_app in *. perm_nat.
+      - rewrite Q7, Q8, F5, F6. lia.
+      - rewrite Hq3, Q9, F7, BF. rewrite <- ?app_assoc, ?map_app, ?sum_app in *. lia.
+      - rewrite Hq3, Q6, F4. rewrite <- ?app_assoc, ?map_app, ?sum_app in *. lia.
+      - rewrite Q2, F2. exact BA.
+      - rewrite Q3, F3. exact BL.
+      - rewrite Hq3. rewrite <- app_assoc. apply Forall_app in A7' as [X1 X2]. apply Forall_app. split; [exact X1|].
+        apply Forall_app. split; assumption.
+      - rewrite Q10, Q7, F8, F5, B4. intros Hfl. specialize (A8 Hfl).
+        (* all requested packets were already terminated: this task cannot terminate any more *)
+        assert (Hlen : length (term s1) <= fresh s1).
+        { assert (X := Permutation_length BP). rewrite !app_length, seq_length in X.
+          assert (Y := Permutation_length A1'). rewrite !app_length, seq_length in Y. lia. }
+        lia.
+      - rewrite Q4. unfold s2.
+        assert (A9' : Permutation (slocks s) (sdeps (k :: rest))) by (rewrite A9; unfold sdeps; apply Permutation_flat_map; exact PHs).
+        clear A9. rename A9' into A9. rewrite sdeps_cons in A9.
+        destruct (dep_of k) eqn:Ed; cbn [drop_dep slocks app] in *; rewrite ?B2; try exact A9.
+        assert (Hin : In sg (slocks s)) by (apply (Permutation_in sg (Permutation_sym A9)); left; reflexivity).
+        pose proof (remove1_perm sg (slocks s) Hin) as PR. perm_nat.
+      - rewrite Q5. unfold s2.
+        assert (A10' : Permutation (blocks s) (bdeps (k :: rest))) by (rewrite A10; unfold bdeps; apply Permutation_flat_map; exact PHs).
+        clear A10. rename A10' into A10. rewrite bdeps_cons in A10.
+        destruct (dep_of k) eqn:Ed; cbn [drop_dep blocks app] in *; rewrite ?B3; try exact A10.
+        assert (Hin : In b (blocks s)) by (apply (Permutation_in b (Permutation_sym A10)); left; reflexivity).
+        pose proof (remove1_perm b (blocks s) Hin) as PR. perm_nat.
+      - rewrite Q4, Q5. unfold s2. destruct (dep_of k); cbn [drop_dep slocks blocks]; rewrite ?B2, ?B3; split; try assumption; apply NoDup_remove1; assumption.
+      - apply Q12. rewrite F1, B1. exact A12. }
+    constructor.
+    - apply (InvD_ext s3); try reflexivity. apply (InvD_perm _ rest); [symmetry; exact PH|exact Dnew].
+    - apply Forall_set_thr; [|discriminate]. rewrite Hthr3. eapply Forall_impl; [|exact E].
+      intros a Ha Hx. cbn [flag set_thr]. rewrite Q10, F8, B4. auto.
+    - rewrite (len_set_thr s3 t _ _ G3), Hthr3. exact N.
+    - intros Hn. exfalso. rewrite (existsb_set_thr s3 t _ _ G3) in Hn. cbn in Hn. discriminate.
+  Qed.
+
+  Theorem trans_inv s s' : Inv s -> trans s s' -> Inv s'.
+  Proof.
+    intros HI T. destruct T.
+    - eapply inv_move; eauto.
+    - discriminate.
+    - eapply inv_fetch; eauto.
+    - eapply inv_none; eauto.
+    - eapply inv_flag; eauto.
+    - eapply inv_premature; eauto.
+    - eapply inv_run; eauto.
+  Qed.
+
+  (* ---------- initial state and reachability ---------- *)
+  Definition src_task (k : task) : Prop := match k with TSrcD _ c | TSrcC _ c => 0 < c | _ => False end.
+  Definition init_ok (srcs : list task) (crem : nat) : Prop :=
+    Forall src_task srcs /\ sum (map task_src srcs) = NREQ /\ sum (map task_csrc srcs) = crem.
+
+  Lemma held_repeat_start n : flat_map pc_tasks (repeat PStart n) = [].
+  Proof. induction n; cbn; auto. Qed.
+
+  Lemma init_inv srcs crem : init_ok srcs crem -> 0 < NTHR -> Inv (init NTHR srcs crem).
+  Proof.
+    intros (H1 & H2 & H3) HT.
+    assert (Hm : map snd (map (fun k => (0, k)) srcs) = srcs) by (rewrite map_map; cbn; apply map_id).
+    assert (Hp : flat_map task_pk srcs = []).
+    { clear -H1. induction H1 as [|k l Hk Hl IH]; [reflexivity|]. cbn [flat_map]. rewrite IH. destruct k; cbn in *; try reflexivity; contradiction. }
+    constructor.
+    - unfold held, init. cbn [thr]. rewrite held_repeat_start.
+      constructor; unfold pk_act, pk_loc; cbn [queue active local slocks blocks cont_rem flushed done term fresh flag thr];
+        rewrite ?Hm, ?app_nil_r; cbn [flat_map app seq length].
+      + rewrite Hp. reflexivity.
+      + reflexivity.
+      + cbn. exact H2.
+      + symmetry. exact H3.
+      + constructor.
+      + constructor.
+      + clear -H1. induction H1 as [|k l Hk Hl IH]; constructor; [destruct k; cbn in *; auto; contradiction|exact IH].
+      + discriminate.
+      + reflexivity.
+      + reflexivity.
+      + split; constructor.
+      + apply Forall_forall. intros e He. apply in_map_iff in He as [k [<- Hk]]. cbn.
+        rewrite Forall_forall in H1. specialize (H1 k Hk). destruct k; cbn in *; auto; contradiction.
+    - cbn [thr init flag]. apply Forall_forall. intros p Hp'. apply repeat_spec in Hp'. subst. discriminate.
+    - cbn [thr init]. apply repeat_length.
+    - cbn [thr init]. intros Hn. exfalso. destruct NTHR; [lia|]. cbn in Hn. discriminate.
+  Qed.
+
+  Definition reachable (srcs : list task) (crem : nat) (s : st) : Prop :=
+    exists ls, run CAP NTHR NREQ reemit ngb true (init NTHR srcs crem) ls = Some s.
+
+  Theorem reachable_inv srcs crem s : init_ok srcs crem -> 0 < NTHR -> reachable srcs crem s -> Inv s.
+  Proof.
+    intros Hi HT [ls Hr]. pose proof (init_inv _ _ Hi HT) as H0.
+    revert Hr H0. generalize (init NTHR srcs crem). induction ls as [|l ls IH]; intros s0 Hr H0; cbn [run] in Hr.
+    - injection Hr as <-. exact H0.
+    - destruct (step s0 l) as [s1|] eqn:E; [|discriminate].
+      apply (IH s1 Hr). eapply trans_inv; [exact H0|]. eapply step_trans; eauto.
+  Qed.
+
+  (* ---------- consequences ---------- *)
+  Lemma all_done_everything_empty s : InvD s (held s) -> done s = NREQ ->
+    pk_act s = [] /\ pk_loc s = [] /\ flat_map task_pk (all_tasks s) = [] /\ Permutation (term s) (seq 0 NREQ)
+    /\ pending s = 0 /\ fresh s = NREQ.
+  Proof.
+    intros [A1 A2 A3 A4 A5 A6 A7 A8 A9 A10 A11 A12] Hd.
+    assert (X := Permutation_length A1). rewrite !app_length, seq_length in X.
+    assert (Hfr : fresh s = NREQ) by lia.
+    assert (L1 : length (pk_act s) = 0) by lia. assert (L2 : length (pk_loc s) = 0) by lia.
+    assert (L3 : length (flat_map task_pk (map snd (queue s) ++ held s)) = 0) by lia.
+    apply length_zero_iff_nil in L1, L2, L3.
+    rewrite L1, L2, L3 in A1. cbn [app] in A1. rewrite Hfr in A1.
+    unfold pending, all_tasks.
+    split; [exact L1|]. split; [exact L2|]. split; [exact L3|]. split; [exact A1|]. split; [lia|exact Hfr].
+  Qed.
+
+  Lemma nonempty_flat_nil l : nonempty_entries l -> flat_map snd l = [] -> l = [].
+  Proof.
+    intros H E. destruct l as [|[k v] l]; [reflexivity|]. inversion H; subst. cbn in *.
+    destruct v; [contradiction|discriminate].
+  Qed.
+
+  (* 1. every launched packet is in exactly one place or terminated, and the counter is exact *)
+  Theorem packets_accounted srcs crem s : init_ok srcs crem -> 0 < NTHR -> reachable srcs crem s ->
+    Permutation (packets s) (seq 0 (fresh s)) /\ NoDup (packets s) /\ done s = length (term s) /\ fresh s + pending s = NREQ.
+  Proof.
+    intros Hi HT Hr. destruct (reachable_inv _ _ _ Hi HT Hr) as [[A1 A2 A3 A4 A5 A6 A7 A8 A9 A10 A11 A12] _ _ _].
+    assert (P : Permutation (packets s) (seq 0 (fresh s))) by exact A1.
+    repeat split; auto. eapply Permutation_NoDup; [symmetry; exact P|apply seq_NoDup].
+  Qed.
+
+  (* 2. the run flag is cleared only when all requested packets have terminated, each exactly once *)
+  Theorem flag_cleared_only_when_all_done srcs crem s : init_ok srcs crem -> 0 < NTHR -> reachable srcs crem s ->
+    flag s = false -> Permutation (term s) (seq 0 NREQ) /\ done s = NREQ.
+  Proof.
+    intros Hi HT Hr Hf. destruct (reachable_inv _ _ _ Hi HT Hr) as [D _ _ _].
+    pose proof (d_flag _ _ D Hf) as Hd. destruct (all_done_everything_empty s D Hd) as (_ & _ & _ & P & _ & _). auto.
+  Qed.
+
+  (* 3. two threads never hold tasks with the same dependency: tasks touching one subgrid never overlap *)
+  Theorem mutual_exclusion srcs crem s : init_ok srcs crem -> 0 < NTHR -> reachable srcs crem s ->
+    NoDup (sdeps (held s)) /\ NoDup (bdeps (held s)).
+  Proof.
+    intros Hi HT Hr. destruct (reachable_inv _ _ _ Hi HT Hr) as [[A1 A2 A3 A4 A5 A6 A7 A8 A9 A10 [N1 N2] A12] _ _ _].
+    split; eapply Permutation_NoDup; eauto.
+  Qed.
+
+
+  (* 4. when every thread has left the loop nothing is left behind *)
+  Theorem clean_at_exit srcs crem s : init_ok srcs crem -> 0 < NTHR -> reachable srcs crem s ->
+    Forall (fun p => p = PExit) (thr s) ->
+    queue s = [] /\ active s = [] /\ local s = [] /\ slocks s = [] /\ blocks s = []
+    /\ Permutation (term s) (seq 0 NREQ) /\ done s = NREQ /\ flag s = false.
+  Proof.
+    intros Hi HT Hr Hall. destruct (reachable_inv _ _ _ Hi HT Hr) as [D E N L].
+    assert (Hflag : flag s = false).
+    { destruct (thr s) as [|p l] eqn:Et; [cbn in N; lia|].
+      inversion E as [|? ? Hp _]; subst. inversion Hall as [|? ? Hp' _]; subst. exact (Hp eq_refl). }
+    assert (Hina : existsb active_pc (thr s) = false).
+    { clear -Hall. induction Hall as [|p l Hp Hl IH]; [reflexivity|]. cbn [existsb]. rewrite IH, Hp. reflexivity. }
+    destruct (L Hina) as [Hh Hq].
+    pose proof (d_flag _ _ D Hflag) as Hd.
+    destruct (all_done_everything_empty s D Hd) as (E1 & E2 & E3 & P & E4 & E5).
+    destruct D as [A1 A2 A3 A4 A5 A6 A7 A8 A9 A10 A11 A12].
+    assert (Hact : active s = []) by (apply nonempty_flat_nil; assumption).
+    assert (Hloc : local s = []) by (apply nonempty_flat_nil; assumption).
+    rewrite Hh in A9, A10. cbn in A9, A10.
+    apply Permutation_sym, Permutation_nil in A9. apply Permutation_sym, Permutation_nil in A10.
+    assert (Hqueue : queue s = []).
+    { destruct (queue s) as [|[q k] l] eqn:Eq; [reflexivity|exfalso].
+      unfold all_tasks, pending in *. rewrite Hh, app_nil_r in *. try rewrite Eq in E3; try rewrite Eq in E4; try rewrite Eq in A7; try rewrite Eq in A12; try rewrite Eq in Hq; try rewrite Eq in A3. cbn [map snd flat_map sum] in *.
+      inversion A7 as [|? ? Hk _]; subst. inversion A12 as [|? ? Hs _]; subst. inversion Hq as [|? ? Hq0 _]; subst.
+      cbn [fst snd] in *.
+      destruct k as [sg c|b c|b|sg ps|sg ps]; cbn [task_ok task_src task_pk shared_only] in *; try lia;
+        try (destruct ps; [apply Hk; reflexivity|cbn in E3; discriminate E3]). }
+    repeat split; assumption.
+  Qed.
 End Main.
+
+(* ---------- the loop condition of the pinned commit (defect O7) ----------
+   2 threads, buffer size 2, one continuous-source task of 2 packets in a single subgrid:
+   thread 0 idles, fails the termination test and fetches, in the else branch, the (empty) flush task of
+   block 1; meanwhile thread 1 finishes everything and clears the flag; thread 0 then leaves the loop at
+   "while (global_run_flag)" WITH the fetched task: its dependency stays locked for the next iteration. *)
+Definition o7_ngb (sg d : nat) : option nat := match d with O => Some sg | _ => None end.
+Definition o7_r0 := mkRun [] [] [] (fun _ => 0).
+Definition o7_schedule : list label :=
+  [ LFetch 1 0;
+    LFetchNone 0; LHead 0; LPrematureSkip 0; LFetchNone 0; LInner 0; LCheck1 0; LCheck2 0;
+    LHead 1; LRun 1 (mkRun [] [] [0; 0] (fun _ => 1));
+    LFetch 1 0; LRun 1 (mkRun [0; 1] [] [] (fun _ => 0));
+    LFetch 1 0; LRun 1 o7_r0;
+    LFetch 0 0;
+    LFetchNone 1; LInner 1; LCheck1 1; LCheck2 1;
+    LHead 1;
+    LHead 0 ].
+Definition o7_final (fixed : bool) : option st := run 2 2 2 false o7_ngb fixed (init 2 [TSrcC 0 2] 2) o7_schedule.
+
+Lemma pinned_loop_refuted :
+  exists s, o7_final false = Some s /\ thr s = [PExit; PExit] /\ blocks s = [1] /\ done s = 2.
+Proof. eexists. split; [vm_compute; reflexivity|]. repeat split. Qed.
+
+Lemma repaired_loop_same_schedule :
+  exists s, o7_final true = Some s /\ thr s = [PInner (Some (TFlush 1)); PExit].
+Proof. eexists. split; [vm_compute; reflexivity|]. reflexivity. Qed.
+
+Lemma o7_init_ok : init_ok 2 [TSrcC 0 2] 2.
+Proof. unfold init_ok. cbn. repeat split; try lia. constructor; [cbn; lia|constructor]. Qed.
